@@ -707,31 +707,30 @@ package rlwe
 //@   ensures implies(isnil(err), val(opOut.Value[0]) == old(val(ctIn.Value[0])) + uf_gp0(old(val(ctIn.Value[2])), g) && val(opOut.Value[1]) == old(val(ctIn.Value[1])) + uf_gp1(old(val(ctIn.Value[2])), g))
 //@   ensures implies(isnil(err), iff(opOut.MetaData.CiphertextMetaData.IsNTT, old(ctIn.MetaData.CiphertextMetaData.IsNTT)) && sameval(opOut.MetaData.PlaintextMetaData.Scale, old(ctIn.MetaData.PlaintextMetaData.Scale)))
 
-// ---- the automorphism of a ciphertext (coefficient domain): key switching with the key of the element, then
-// ---- the automorphism of BOTH components; the automorphism of a ring element is NAMED (uf_autom)
+// ---- the automorphism of a ciphertext: key switching with the key of the element, then the automorphism of
+// ---- BOTH components - in the coefficient domain by the element (NAMED uf_autom), in the NTT domain (the default
+// ---- of every scheme) with the index table the evaluator holds for the element (NAMED uf_automidx; the table
+// ---- is whatever the evaluator's map gives for galEl - the same for the two components); the output is at the
+// ---- common level of input and receiver
 //@ afunc Evaluator.Automorphism
 //@   property C04
-//@   case len(ctIn.Value) == 2 && len(opOut.Value) == 2
-//@   case len(ctIn.Value) == 2 ; alias opOut = ctIn
-//@   requires galEl != 1 && !ctIn.MetaData.CiphertextMetaData.IsNTT
-//@   requires iscoef(ctIn.Value[0]) && iscoef(ctIn.Value[1]) && mexp(ctIn.Value[0]) == 0 && mexp(ctIn.Value[1]) == 0 && dom(ctIn.Value[0]) == 0 && dom(ctIn.Value[1]) == 0
-//@   let g = uf_gk(contentid(eval.EvaluationKeySet), galEl)
+//@   case len(ctIn.Value) == 2 && len(opOut.Value) == 2 && !ctIn.MetaData.CiphertextMetaData.IsNTT
+//@   case len(ctIn.Value) == 2 && !ctIn.MetaData.CiphertextMetaData.IsNTT ; alias opOut = ctIn
+//@   case len(ctIn.Value) == 2 && len(opOut.Value) == 2 && ctIn.MetaData.CiphertextMetaData.IsNTT
+//@   case len(ctIn.Value) == 2 && ctIn.MetaData.CiphertextMetaData.IsNTT ; alias opOut = ctIn
+//@   requires galEl != 1
+//@   requires indom(ctIn.Value[0], ctIn.MetaData.CiphertextMetaData.IsNTT) && indom(ctIn.Value[1], ctIn.MetaData.CiphertextMetaData.IsNTT) && dom(ctIn.Value[0]) != 2 && dom(ctIn.Value[1]) != 2 && mexp(ctIn.Value[0]) == 0 && mexp(ctIn.Value[1]) == 0
 //@   requires len(ctIn.Value[1].Coeffs) == len(ctIn.Value[0].Coeffs) && len(opOut.Value[1].Coeffs) == len(opOut.Value[0].Coeffs)
+//@   let g = uf_gk(contentid(eval.EvaluationKeySet), galEl)
+//@   let I = contentid(eval.automorphismIndex[galEl])
 //@   let lin = old(len(ctIn.Value[0].Coeffs))
 //@   let lout = old(len(opOut.Value[0].Coeffs))
+//@   let x0 = old(val(ctIn.Value[0])) + uf_gp0(old(val(ctIn.Value[1])), g)
+//@   let x1 = uf_gp1(old(val(ctIn.Value[1])), g)
 //@   ensures implies(isnil(err), len(opOut.Value[0].Coeffs) == ite(lin <= lout, lin, lout) && len(opOut.Value[1].Coeffs) == ite(lin <= lout, lin, lout))
-//@   ensures implies(isnil(err), val(opOut.Value[0]) == uf_autom(old(val(ctIn.Value[0])) + uf_gp0(old(val(ctIn.Value[1])), g), galEl) && val(opOut.Value[1]) == uf_autom(uf_gp1(old(val(ctIn.Value[1])), g), galEl))
+//@   ensures implies(isnil(err) && !old(ctIn.MetaData.CiphertextMetaData.IsNTT), val(opOut.Value[0]) == uf_autom(x0, galEl) && val(opOut.Value[1]) == uf_autom(x1, galEl))
+//@   ensures implies(isnil(err) && old(ctIn.MetaData.CiphertextMetaData.IsNTT), val(opOut.Value[0]) == uf_automidx(x0, I) && val(opOut.Value[1]) == uf_automidx(x1, I))
 //@   ensures implies(isnil(err), iff(opOut.MetaData.CiphertextMetaData.IsNTT, old(ctIn.MetaData.CiphertextMetaData.IsNTT)) && sameval(opOut.MetaData.PlaintextMetaData.Scale, old(ctIn.MetaData.PlaintextMetaData.Scale)))
-
-//@ afunc AddPolyTimesGadgetVectorToGadgetCiphertext
-//@   trusted opaque at the abstract level (the plaintext times the gadget vector is added to the rows: digit arithmetic); the plaintext must be in the NTT domain and in Montgomery form; writes the gadget ciphertexts and the buffer (which may be the plaintext itself)
-//@   requires isntt(pt) && mexp(pt) == 1
-//@   assigns buff
-
-//@ afunc Encryptor.EncryptZero
-//@   trusted at call sites outside this package's own contracts: an encryption of zero into the receiver (verified per receiver kind under encryptZeroSk#ciphertext, encryptZeroSkFromC1(QP), encryptZeroPkNoP); the receiver must be an actual object, not a nil pointer in an interface
-//@   requires !isnil(unbox(ct))
-//@   assigns
 
 // ==== property C04 ("any power-of-two digit decomposition, moduli of unequal bit-sizes"): the digits of a
 // ==== modulus cover every one of its bits.  bitlen(x) is the bit length of x (what math/bits.Len64 returns:
